@@ -31,6 +31,10 @@ func vInstant(name string) time.Time
 func vClock(name string) *dsig.Clock
 func vAssume(c bool)
 func vAssert(id string, c bool)
+
+// vAssertModel: an assertion about facts only the model observes (call counters of dependency functions, bytes
+// requested from the inflater): decided symbolically, not evaluated in the native replay.
+func vAssertModel(id string, c bool)
 func vReach(label string, c bool)
 func vNote(s string)
 
